@@ -3,15 +3,22 @@
 What is extracted (Python `ast`, fail-closed: any shape that is not the one recognised here raises TranslationError):
   gen_statuses          Result.STATUSES
   gen_enabled           the statuses summed by ReportStats.tests_enabled_nb
-  gen_message_vars      _report_message_variables: (name, status counted or "", "of" of the percentage or "") in dict order
-  gen_junit_rules       _serialize_test_result: (condition, child tag) in program order
+  gen_message_vars      _report_message_variables: (name, status counted or "" or "None->n/a", "of" of the percentage or "")
+                        in dict order
+  gen_junit_rules       _serialize_test_result: (condition, child tag) in program order; the log rules carry the status guard
+                        of the branch they are in ("status==failed&...")
   gen_junit_suite       _serialize_suite_result: (counter attribute, status it counts)
   gen_junit_top         serialize_report_as_xml_tree: (attribute, status whose ReportStats count it shows)
   gen_console_labels    _make_test_status_label: (status or "None", label), then ("*", label of the else branch)
   gen_console_summary   _print_summary: (line title, status shown, "if" when the line is printed only when non-zero)
 Props/C20.v compares these tables with the constants the hand-written models (Model/Stats.v, Junit.v) are built on
-(Example C20_tables_tie), so a change of a status name, of a counted status, of a JUnit rule or of a summary line breaks the build
-of the obligations.  Strings are emitted as lists of code points."""
+(Theorem C20_tables_tie), so a change of a status name, of a counted status, of a JUnit rule or of a summary line breaks the build
+of the obligations.  Strings are emitted as lists of code points.
+
+Pinned without being emitted (the hand-written model is built on them; any other shape aborts): _get_duration, Report.duration,
+ReportStats.from_results / from_report / from_suites, Report.build_message (every variable is evaluated), _percent and
+ReportStats.successful_tests_percentage (integer arithmetic `* 100 //`).  The shapes accepted are those of the code WITH the
+repairs F12, F13, F14, F18 (DESIGN.md section 6): a tree without one of them is rejected (fail-closed)."""
 import ast
 import os
 
@@ -36,6 +43,19 @@ def find(tree, kind, name):
         if isinstance(n, kind) and getattr(n, "name", None) == name:
             return n
     fail(tree if isinstance(tree, ast.AST) and hasattr(tree, "lineno") else "<module>", "no %s named %s" % (kind.__name__, name))
+
+
+def norm(src):
+    """canonical text (ast.unparse) of a statement / expression given as source"""
+    return ast.unparse(ast.parse(src))
+
+
+def body_src(fn):
+    """the statements of a function as canonical text, docstring dropped"""
+    body = fn.body
+    if body and isinstance(body[0], ast.Expr) and isinstance(body[0].value, ast.Constant) and isinstance(body[0].value.value, str):
+        body = body[1:]
+    return [ast.unparse(x) for x in body]
 
 
 def const_str(node):
@@ -91,9 +111,30 @@ def report_tables(repo):
                  "for test in tests:\n    if test.status:\n        stats.tests_nb_by_status[test.status] += 1"):
         if want not in src:
             fail(fr, "from_results: statement not found: %s" % want)
-    # _percent
+    # from_report / from_suites (F13 repaired: None-safe duration, empty selection accepted)
+    if body_src(find(rs, ast.FunctionDef, "from_report")) != \
+            [norm("return cls.from_results(list(report.all_results()), report.duration)")]:
+        fail(rs, "from_report: unexpected body")
+    if body_src(find(rs, ast.FunctionDef, "from_suites")) != [
+            norm("results = list(flatten_results(suites))"),
+            norm("return cls.from_results(results, _get_duration(results[0].start_time, results[-1].end_time) "
+                 "if results and not parallelized else None)")]:
+        fail(find(rs, ast.FunctionDef, "from_suites"), "from_suites: unexpected body")
+    # _get_duration, Report.duration, Report.build_message
+    if body_src(find(tree, ast.FunctionDef, "_get_duration")) != [norm(
+            "if start_time is not None and end_time is not None:\n    return end_time - start_time\nelse:\n    return None")]:
+        fail(find(tree, ast.FunctionDef, "_get_duration"), "_get_duration: unexpected body")
+    rep_cls = find(tree, ast.ClassDef, "Report")
+    if body_src(find(rep_cls, ast.FunctionDef, "duration")) != [norm("return _get_duration(self.start_time, self.end_time)")]:
+        fail(rep_cls, "Report.duration: unexpected body")
+    if body_src(find(rep_cls, ast.FunctionDef, "build_message")) != [
+            norm("stats = ReportStats.from_report(self)"),
+            norm("variables = {name: func(self, stats) for name, func in _report_message_variables.items()}"),
+            norm("return template.format(**variables)")]:
+        fail(rep_cls, "Report.build_message: unexpected body")
+    # _percent (F18 repaired: integer arithmetic)
     pc = find(tree, ast.FunctionDef, "_percent")
-    if [ast.unparse(s) for s in pc.body] != ["return '%d%%' % (float(val) / of * 100 if of else 0)"]:
+    if [a.arg for a in pc.args.args] != ["val", "of"] or body_src(pc) != [norm("return '%d%%' % (val * 100 // of if of else 0)")]:
         fail(pc, "_percent: unexpected body")
     # _report_message_variables
     mv = None
@@ -113,10 +154,10 @@ def report_tables(repo):
             if text != "time.asctime(time.localtime(report.%s))" % name:
                 fail(body, "unexpected %s" % name)
             mvars.append((name, "", ""))
-        elif name == "duration":
-            if text != "humanize_duration(report.end_time - report.start_time)":
+        elif name == "duration":      # F14 repaired
+            if text != norm("humanize_duration(report.duration) if report.duration is not None else 'n/a'"):
                 fail(body, "unexpected duration")
-            mvars.append((name, "", ""))
+            mvars.append((name, "None->n/a", ""))
         elif text == "stats.tests_nb":
             mvars.append((name, "*", ""))
         elif text == "stats.tests_enabled_nb":
@@ -154,11 +195,17 @@ def junit_tables(repo, level_error):
     if ast.unparse(top.test) != "test.status == 'skipped'":
         fail(top.test, "unexpected first condition")
     rules.append(("status==skipped", child_tag(top.body, "skipped branch")))
-    if len(top.orelse) != 1 or not isinstance(top.orelse[0], ast.For) or ast.unparse(top.orelse[0].iter) != "test.get_steps()":
-        fail(top, "else branch is not `for step in test.get_steps()`")
-    inner = top.orelse[0].body
+    # F12 repaired: the failure/error children are emitted under `elif test.status == "failed":` (a plain `else:` is rejected)
+    if len(top.orelse) != 1 or not isinstance(top.orelse[0], ast.If):
+        fail(top, "the branch after the skipped one is not `elif test.status == 'failed':`")
+    guard = top.orelse[0]
+    if ast.unparse(guard.test) != "test.status == 'failed'" or guard.orelse:
+        fail(guard, "the branch after the skipped one is not a final `elif test.status == 'failed':`")
+    if len(guard.body) != 1 or not isinstance(guard.body[0], ast.For) or ast.unparse(guard.body[0].iter) != "test.get_steps()":
+        fail(guard, "failed branch is not `for step in test.get_steps()`")
+    inner = guard.body[0].body
     if len(inner) != 1 or not isinstance(inner[0], ast.For) or ast.unparse(inner[0].iter) != "step.get_logs()":
-        fail(top.orelse[0], "expected `for log in step.get_logs()`")
+        fail(guard.body[0], "expected `for log in step.get_logs()`")
     chain = inner[0].body
     if len(chain) != 1 or not isinstance(chain[0], ast.If):
         fail(inner[0], "expected one if/elif chain over the log")
@@ -169,7 +216,7 @@ def junit_tables(repo, level_error):
         text = ast.unparse(node.test)
         if text not in conds:
             fail(node.test, "unrecognised log condition")
-        rules.append((conds[text], child_tag(node.body, text)))
+        rules.append(("status==failed&" + conds[text], child_tag(node.body, text)))
         if not node.orelse:
             node = None
         elif len(node.orelse) == 1 and isinstance(node.orelse[0], ast.If):
@@ -294,9 +341,9 @@ def console_tables(repo):
     rtree = parse(repo, "lemoncheesecake/reporting/report.py")
     rs = find(rtree, ast.ClassDef, "ReportStats")
     sp = find(rs, ast.FunctionDef, "successful_tests_percentage")
-    if [ast.unparse(s) for s in sp.body] != \
-            ["return float(self.tests_nb_by_status['passed']) / self.tests_enabled_nb * 100 if self.tests_enabled_nb else 0"]:
-        fail(sp, "successful_tests_percentage: unexpected body")
+    if body_src(sp) != \
+            [norm("return self.tests_nb_by_status['passed'] * 100 // self.tests_enabled_nb if self.tests_enabled_nb else 0")]:
+        fail(sp, "successful_tests_percentage: unexpected body (F18 repaired: integer arithmetic)")
     return labels, summary
 
 
